@@ -13,12 +13,9 @@ Variable F : opts.
 Definition ckey (k : atom) : atom :=
   if cleaning F then match clean_key F k with Ok ck => ck | Err _ => k end else k.
 
-(* a key the dict comparison can handle: cleanable (K8) *)
-Definition key_ok (k : atom) : bool := negb (cleaning F) || key_cleanable F k.
-
-(* the kept keys of a dict: pairwise different for Python, all ok, pairwise different after cleaning *)
+(* the kept keys of a dict: pairwise different for Python and pairwise different after cleaning *)
 Definition keys_good (ks : list atom) : bool :=
-  nodup_atoms ks && forallb key_ok ks && nodup_atoms (map ckey ks).
+  nodup_atoms ks && nodup_atoms (map ckey ks).
 
 Definition kept (kvs : list (atom * value)) : list (atom * value) :=
   filter (fun kv => keep_key c (fst kv)) kvs.
@@ -73,23 +70,21 @@ Proof.
 Qed.
 
 (* ---- clean_map on a key list whose clean keys are pairwise different ---- *)
-Lemma ckey_clean : forall k, cleaning F = true -> key_ok k = true -> clean_key F k = Ok (ckey k).
+Lemma ckey_clean : forall k, cleaning F = true -> clean_key F k = Ok (ckey k).
 Proof.
-  intros k Hc H. unfold key_ok in H. rewrite Hc in H. cbn [negb orb] in H.
-  apply clean_key_ok in H. destruct H as [ck H]. unfold ckey. rewrite Hc, H. reflexivity.
+  intros k Hc. destruct (clean_key_ok F k) as [ck H]. unfold ckey. rewrite Hc, H. reflexivity.
 Qed.
 
 Lemma clean_map_spec : forall ks acc,
   cleaning F = true ->
-  forallb key_ok ks = true -> nodup_atoms (map ckey ks) = true ->
+  nodup_atoms (map ckey ks) = true ->
   (forall k, In k ks -> mem_atom (ckey k) (map fst acc) = false) ->
   clean_map F ks acc = Ok (rev acc ++ map (fun k => (ckey k, k)) ks)%list.
 Proof.
-  induction ks as [|k r IH]; intros acc Hc Hok Hn Hacc; cbn [clean_map map].
+  induction ks as [|k r IH]; intros acc Hc Hn Hacc; cbn [clean_map map].
   - rewrite app_nil_r. reflexivity.
-  - cbn [forallb] in Hok. apply andb_true_iff in Hok. destruct Hok as [Hk Hok].
-    cbn [map nodup_atoms] in Hn. apply andb_true_iff in Hn. destruct Hn as [Hnk Hn]. apply negb_true_iff in Hnk.
-    rewrite (ckey_clean k Hc Hk). cbn [bind].
+  - cbn [map nodup_atoms] in Hn. apply andb_true_iff in Hn. destruct Hn as [Hnk Hn]. apply negb_true_iff in Hnk.
+    rewrite (ckey_clean k Hc). cbn [bind].
     rewrite (Hacc k (or_introl eq_refl)).
     rewrite IH; try assumption.
     + cbn [rev]. rewrite <- app_assoc. reflexivity.
@@ -111,11 +106,11 @@ Lemma kmap_spec : forall ks, keys_good ks = true ->
              (forall k, In k ks -> repr_ckey F km k = Some (ckey k)).
 Proof.
   intros ks H. unfold keys_good in H.
-  apply andb_true_iff in H. destruct H as [H Hnc]. apply andb_true_iff in H. destruct H as [Hn Hok].
+  apply andb_true_iff in H. destruct H as [Hn Hnc].
   destruct (cleaning F) eqn:Hc.
   - exists (map (fun k => (ckey k, k)) ks).
     assert (clean_map F ks [] = Ok (map (fun k => (ckey k, k)) ks)) as Hm.
-    { rewrite (clean_map_spec ks [] Hc Hok Hnc); [reflexivity|]. intros; reflexivity. }
+    { rewrite (clean_map_spec ks [] Hc Hnc); [reflexivity|]. intros; reflexivity. }
     assert (forall k, In k ks -> assoc (ckey k) (map (fun k => (ckey k, k)) ks) = Some k) as Ha.
     { intros k Hk. apply assoc_nodup.
       - rewrite map_map. cbn [fst]. exact Hnc.
@@ -125,8 +120,8 @@ Proof.
     + rewrite map_map. cbn [fst]. reflexivity.
     + split.
       * intros k Hk. rewrite (Ha k Hk). reflexivity.
-      * intros k Hk. rewrite forallb_forall in Hok.
-        rewrite (ckey_clean k Hc (Hok k Hk)). unfold orig_key. rewrite Hc, (Ha k Hk), atom_eqb_refl. reflexivity.
+      * intros k Hk.
+        rewrite (ckey_clean k Hc). unfold orig_key. rewrite Hc, (Ha k Hk), atom_eqb_refl. reflexivity.
   - exists []. unfold kmap, ckeys, orig_key, repr_ckey. rewrite Hc.
     split; [reflexivity|]. split.
     + rewrite (map_ext ckey (fun k => k)); [symmetry; apply map_id|]. intros k. apply ckey_noclean. exact Hc.
@@ -134,10 +129,10 @@ Proof.
 Qed.
 
 (* related keys have Python-equal clean keys *)
-Lemma ckey_altK : forall a b, altK F a b = true -> key_ok a = true -> key_ok b = true -> py_eq (ckey a) (ckey b) = true.
+Lemma ckey_altK : forall a b, altK F a b = true -> py_eq (ckey a) (ckey b) = true.
 Proof.
-  intros a b H Ha Hb. unfold ckey. destruct (cleaning F) eqn:Hc.
-  - pose proof (ckey_clean a Hc Ha) as Ea. pose proof (ckey_clean b Hc Hb) as Eb.
+  intros a b H. unfold ckey. destruct (cleaning F) eqn:Hc.
+  - pose proof (ckey_clean a Hc) as Ea. pose proof (ckey_clean b Hc) as Eb.
     rewrite Ea, Eb. eapply clean_key_altK; eassumption.
   - unfold altK in H. rewrite Hc in H. exact H.
 Qed.
